@@ -71,6 +71,10 @@ fn sources(p: &LangPlan, k: usize) -> Vec<String> {
         out.push(format!("f({a}, f({b}, f({c}, {c}))){}", p.sep));
         out.push(format!("f(f(f({a}, {b}), {c}), {a}){}", p.sep));
         out.push(format!("f({a} + {b}, f({b} + {c}, {c} + {a})){}", p.sep));
+        // curried calls: a node that is the CALLEE (field `function`) of one call and sits in the
+        // arguments of a nearer one
+        out.push(format!("f({a})({b}, {c}){}", p.sep));
+        out.push(format!("f(f({a})({b}))({c}){}", p.sep));
       }
     }
   }
@@ -465,7 +469,9 @@ fn main() {
     atoms.push(R::Nth { pos: "1".into(), reverse: false, of: Some(Box::new(R::Pat(p.atoms[1].to_string()))) });
     atoms.push(R::Nth { pos: "2".into(), reverse: false, of: Some(Box::new(R::Pat(p.atoms[0].to_string()))) });
     let aux: Vec<R> = vec![R::Pat(p.atoms[1].to_string()), R::Pat(p.atoms[0].to_string()), R::Kind(p.kinds[0].to_string())];
-    let d1 = apply_ops(&atoms, &aux, &[], false);
+    // relations with `field: function` as well (inside/has through a field reject candidates AFTER
+    // the sub-rule has been tried on them)
+    let d1 = apply_ops(&atoms, &aux, &["function"], false);
     let aux2: Vec<R> = vec![R::Pat(p.atoms[1].to_string()), R::Kind(p.kinds[0].to_string())];
     let d2 = apply_ops(&d1, &aux2, &[], false);
     let mut docs: Vec<(String, RuleDoc)> = vec![];
